@@ -1,7 +1,7 @@
 """C05 rules for the chained hash table: S1 slot-index agreement, S2 lookup-predicate agreement,
 S3 chain-unlink protocol (S3 is also a leak condition and is reported under C11 too)."""
 from .frontend import walk, children, strip, strip_parens, qtype
-from .expr import canon, access_path, is_null
+from .expr import canon, access_path, is_null, int_value
 from .dataflow import ReachingDefs
 from .hashrules import _loop_nodes
 
@@ -241,3 +241,177 @@ def _cycle_avoiding(cfg, head, body, avoid):
         for (s, _l) in n.succs:
             work.append((s, path + [s]))
     return None
+
+
+# ======================================================================================================
+# Further chain-table clauses (added later): S4 insert-at-head protocol, S5 cursor refresh, S6 clear, and the
+# string-equality component of the match predicate (reported under S2).
+
+def rule_s2_strcmp(prog, rep, rid='S2'):
+    """The chain-match predicate of each lookup contains an equality test of the entry's name string with the key (hash
+    equality alone conflates colliding keys)."""
+    for name in ('qhashtbl_put', 'qhashtbl_get', 'qhashtbl_remove'):
+        f = prog.need_func(name)
+        found = False
+        for x in walk(f.body):
+            if x.get('kind') == 'CallExpr' and prog.callee_name(x) in ('strcmp', 'strncmp', 'memcmp'):
+                args = [canon(a) for a in children(x)[1:3]]
+                if any(a.endswith('->name') for a in args) and any(a == 'name' for a in args):
+                    found = True
+        rep.instance(rid)
+        rep.oblige(rid, found, {'function': name, 'string_equality_on_key': found})
+        if not found:
+            rep.violation(rid, f, f.line, 'match-strcmp', '%s recognises a chain entry without comparing its name string with the key: '
+                          'two keys with the same 32-bit hash are taken for one' % name)
+
+
+def rule_s4(prog, rep, rid='S4'):
+    """Insert-at-head: when a new node becomes the head of a chain, its `next` received the old head before the slot is
+    overwritten - on every path on which the old head can be non-NULL."""
+    from .own import propagate, node_events, cond_null_test
+    rep.rule(rid, 'insert-at-head protocol: the new node\'s next link receives the old chain head before the slot is overwritten '
+                  '(on every path on which the old head can be non-NULL)')
+    f = prog.need_func('qhashtbl_put')
+    stores = []
+
+    def is_slot(e):
+        s = strip_parens(e)
+        return s.get('kind') == 'ArraySubscriptExpr' and canon(children(s)[0]).endswith('->slots')
+
+    def transfer(n, st):
+        if not isinstance(n.ast, dict) or n.kind == 'macro':
+            return st
+        s = set(st)
+        for ev in node_events(n):
+            if ev[0] != 'assign':
+                continue
+            lhs, rhs = ev[1], ev[2]
+            l = strip_parens(lhs)
+            if l.get('kind') == 'MemberExpr' and l.get('name') == 'next' and is_slot(strip(rhs)):
+                s.add(('linked', canon(children(l)[0]), canon(strip(rhs))))
+            elif is_slot(lhs):
+                r = canon(strip(rhs))
+                slot = canon(strip_parens(lhs))
+                stores.append((n, ev[3], slot, r, ('linked', r, slot) in s, ('headnull', slot) in s))
+        return frozenset(s)
+
+    def branch(n, st, lab):
+        if not isinstance(n.ast, dict):
+            return st
+        from .expr import is_null
+        c = strip_parens(n.ast)
+        t = None
+        if c.get('kind') == 'BinaryOperator' and c.get('opcode') in ('==', '!='):
+            a, b = children(c)
+            for x, y in ((a, b), (b, a)):
+                if is_slot(strip(x)) and is_null(y):
+                    t = (canon(strip(x)), c.get('opcode') == '==')
+        elif is_slot(strip(c)):
+            t = (canon(strip(c)), False)
+        if t:
+            s = set(st)
+            if (lab == 'T') == t[1]:
+                s.add(('headnull', t[0]))
+            return frozenset(s)
+        return st
+    propagate(f, frozenset(), transfer, branch)
+    by = {}
+    for (n, x, slot, r, linked, headnull) in stores:
+        by.setdefault((x.get('_line'), slot, r), []).append(linked or headnull)
+    if not by:
+        from .frontend import AnalysisBroken
+        raise AnalysisBroken('qhashtbl_put: no store into the slot array found')
+    for (line, slot, r), oks in sorted(by.items()):
+        rep.instance(rid)
+        ok = all(oks)
+        rep.oblige(rid, ok, {'function': f.name, 'line': line, 'store': '%s = %s' % (slot, r)})
+        if not ok:
+            rep.violation(rid, f, line, 'head-store:%s' % r, '%s = %s overwrites the chain head on a path on which %s->next has not '
+                          'received the old head: the rest of the chain is lost (or the node links to itself)' % (slot, r, r))
+
+
+def rule_s5_cursor(prog, rep, sites, rid='S5'):
+    """Cursor refresh: a walk function delivers an element through a caller-provided cursor record and reads some fields of
+    that record to find where to resume.  On every path on which it delivers (assigns the cursor's data), every resume field
+    has been (re)assigned as well - a stale resume field makes the next call skip or repeat entries."""
+    from .own import propagate, node_events
+    rep.rule(rid, 'walk cursor refresh: on every path that delivers an element through the cursor, every cursor field the function '
+                  'reads to resume the walk is re-assigned')
+    for (unit, fname, pidx) in sites:
+        f = prog.func(fname, unit)
+        if f is None or f.body is None:
+            continue
+        if pidx >= len(f.params):
+            continue
+        cur = f.params[pidx].get('name')
+        # fields of the cursor that are read (rvalue use outside free()/debug output)
+        lhs_ids = set()
+        freed = set()
+        for x in walk(f.body):
+            if x.get('kind') == 'BinaryOperator' and x.get('opcode') == '=':
+                lhs_ids.add(id(strip_parens(children(x)[0])))
+            if x.get('kind') == 'CallExpr' and prog.callee_name(x) in ('free', 'memset'):
+                for a in children(x)[1:]:
+                    for y in walk(a):
+                        freed.add(id(y))
+        resume = set()
+        for x in walk(f.body):
+            if x.get('kind') == 'MemberExpr' and x.get('isArrow') and canon(children(x)[0]) == cur \
+                    and id(x) not in lhs_ids and id(x) not in freed:
+                resume.add(x.get('name'))
+        if not resume:
+            continue
+
+        def transfer(n, st):
+            if not isinstance(n.ast, dict) or n.kind == 'macro':
+                return st
+            s = set(st)
+            for ev in node_events(n):
+                if ev[0] == 'assign':
+                    l = strip_parens(ev[1])
+                    if l.get('kind') == 'MemberExpr' and l.get('isArrow') and canon(children(l)[0]) == cur:
+                        s.add(l.get('name'))
+                    elif l.get('kind') == 'UnaryOperator' and l.get('opcode') == '*' and canon(children(l)[0]) == cur:
+                        s |= set(resume) | {'data'}        # *cursor = *node : whole-record copy
+            return frozenset(s)
+        states, truncated = propagate(f, frozenset(), transfer)
+        for r in f.cfg.returns():
+            if isinstance(r.ast, dict) and children(r.ast) and int_value(children(r.ast)[0]) == 0:
+                continue          # `return false/NULL`: a failure exit delivers nothing
+            for st in states.get(r.id, ()):
+                if 'data' not in st:
+                    continue
+                rep.instance(rid)
+                missing = sorted(resume - set(st))
+                rep.oblige(rid, not missing, {'function': fname, 'return_line': r.line, 'resume_fields': sorted(resume)})
+                if missing:
+                    rep.violation(rid, f, r.line, 'stale:%s' % ','.join(missing),
+                                  '%s delivers an element through %s but leaves %s->%s as the previous call left it: the function '
+                                  'reads that field to resume, so the next call skips or repeats entries' % (fname, cur, cur, ', '.join(missing)))
+                    break
+
+
+def rule_s6_clear(prog, rep, rid='S6'):
+    """clear(): every chain whose nodes are freed is detached from its slot (slot set to NULL), and the slot scan is bounded by
+    the table range only together with the count (no slot can be skipped while entries remain)."""
+    rep.rule(rid, 'clear detaches every chain it frees: the slot is reset to NULL in the iteration that frees its nodes')
+    f = prog.need_func('qhashtbl_clear')
+    loops = [x for x in walk(f.body) if x.get('kind') in ('ForStmt', 'WhileStmt')]
+    frees_node = False
+    resets = False
+    for x in walk(f.body):
+        if x.get('kind') == 'BinaryOperator' and x.get('opcode') == '=':
+            l = strip_parens(children(x)[0])
+            if l.get('kind') == 'ArraySubscriptExpr' and canon(children(l)[0]).endswith('->slots'):
+                from .expr import is_null
+                if is_null(children(x)[1]):
+                    resets = True
+        if x.get('kind') == 'CallExpr' and prog.callee_name(x) == 'free':
+            frees_node = True
+    whole = any(x.get('kind') == 'CallExpr' and prog.callee_name(x) == 'memset' and '->slots' in canon(children(x)[1]) for x in walk(f.body))
+    rep.instance(rid)
+    ok = (not frees_node) or resets or whole
+    rep.oblige(rid, ok, {'function': f.name, 'slot_reset': resets or whole})
+    if not ok:
+        rep.violation(rid, f, f.line, 'slot-reset', 'clear() frees the chain nodes but leaves the slot pointing at them: every later '
+                      'lookup in that slot walks freed memory')
